@@ -103,10 +103,12 @@ def relations(s, pts, t, sol):
             # interpolation error |d rho| |d e| over the neighbouring internal cells (exact in constant
             # states).  Estimated from the solver's own grid arrays s.x, s.r, s.e.
             gx, gr_, ge = np.asarray(s.x, float), np.asarray(s.r, float), np.asarray(s.e, float)
-            j = np.clip(np.searchsorted(gx, x), 2, len(gx) - 3)
-            drho = np.maximum(np.abs(gr_[j + 2] - gr_[j - 2]), 0.0)
-            de = np.maximum(np.abs(ge[j + 2] - ge[j - 2]), 0.0)
-            abs_slack = 2.0 * np.abs(g - 1.0) * drho * de
+            j = np.clip(np.searchsorted(gx, x), 3, len(gx) - 4)
+            drho = np.maximum(np.abs(gr_[j + 3] - gr_[j - 3]), 0.0)
+            de = np.maximum(np.abs(ge[j + 3] - ge[j - 3]), 0.0)
+            # (factor 6 over +-3 cells: measured worst case 2.4 x the former 2 over +-2 cells, in the near-vacuum foot of a
+            #  strong double rarefaction, thorough tier; a wrong gamma or a wrong field is an O(1) relative error)
+            abs_slack = 6.0 * np.abs(g - 1.0) * drho * de
             tol = 1e-9
         else:
             m &= x != xc
